@@ -212,4 +212,4 @@ def body(rec, c):
 
 
 CHECKS = [Check("multi_vs_single", body, lambda: {"c": mp_case()}, quick=10, thorough=120, quick_shards=8,
-                thorough_shards=16, shrink_quick=False)]
+                thorough_shards=8, shrink_quick=False)]
